@@ -883,6 +883,12 @@ fn dump<'tcx>(tcx: TyCtxt<'tcx>, full: bool) -> J {
                     o.push(("sig", js(with_no_trimmed_paths!(format!("{}", sig)))));
                     let g = tcx.generics_of(did);
                     o.push(("generic_count", jn(g.count())));
+                    // names of all generic parameters in substitution order (parents first), as printed in types
+                    let mut names: Vec<J> = Vec::new();
+                    for i in 0..g.count() {
+                        names.push(js(g.param_at(i, tcx).name.to_string()));
+                    }
+                    o.push(("generic_names", J::A(names)));
                     o.push(("reachable_pub", J::B(tcx.effective_visibilities(()).is_reachable(ldid))));
                 }
                 let parent = tcx.parent(did);
